@@ -401,6 +401,29 @@ func main() {
 				r.Violation(map[string]string{"kind": "returned-set", "shape": "repeat"}, fmt.Sprintf("a repeated load returned %d certificates (err=%v), the first %d", len(again), aerr, len(certs)), wit)
 			}
 		}
+		// the store's files are rewritten IN PLACE (same names, the directory itself is not touched - a rotated anchor):
+		// the same trust store value, asked again, answers with what the files hold now
+		if i%3 == 0 && sc.Shape == "dir" {
+			storeDir := filepath.Join(x509dir, sc.Type, sc.Name)
+			ents, _ := os.ReadDir(storeDir)
+			if len(ents) > 0 && len(ents) < 20 {
+				for _, e := range ents {
+					if f, err := os.OpenFile(filepath.Join(storeDir, e.Name()), os.O_WRONLY|os.O_TRUNC, 0); err == nil {
+						f.Write(lib.PEMCert(root2.Cert))
+						f.Close()
+					}
+				}
+				rot, rerr := ts.GetCertificates(context.Background(), truststore.Type(sc.Type), sc.Name)
+				r.Event("stores-rewritten-in-place-and-asked-again")
+				stale := rerr != nil || len(rot) != len(ents)
+				for _, c := range rot {
+					stale = stale || !bytes.Equal(c.Raw, root2.Cert.Raw)
+				}
+				if stale {
+					r.Violation(map[string]string{"kind": "returned-set", "shape": "rewritten-in-place"}, fmt.Sprintf("every file of the store was rewritten in place with another CA certificate; the same trust store value then returned %d certificates (err=%v), %d files hold the new certificate and nothing else", len(rot), rerr, len(ents)), wit)
+				}
+			}
+		}
 		var got, w []string
 		for _, c := range certs {
 			got = append(got, string(c.Raw))
